@@ -119,6 +119,7 @@ type Exec struct {
 	timerChans        []*ChanV
 	timerDur          []*term.Term
 	timeAdvanced      int
+	clockNS           int64
 }
 
 func (x *Exec) unsupported(format string, a ...interface{}) {
